@@ -417,6 +417,13 @@ class Run:
             info["cs_value"] = repr(sm.current_state.value) if info["cur"] is not None else None
         except Exception as err:  # noqa: BLE001
             info["csv_err"] = type(err).__name__
+        # auxiliary invariant I1 (private names; detaches silently when they are renamed)
+        try:
+            eng = sm._engine
+            info["q_len"] = len(eng._external_queue)
+            info["locked"] = eng._processing.locked()
+        except Exception:  # noqa: BLE001
+            pass
         if getattr(self, "user_model", None) is not None:
             info["model_is_users"] = sm.model is self.user_model
         rec.emit("step", op="probe", phase="end", **info)
